@@ -83,7 +83,8 @@ Definition atd_prog : list stmt :=
   [SSet "col_expression.sql_dialect" (AFn "id" (APair AArg (AAttr "col_expression")));
    SIf (AAttr "input_is_string")
        [SSet "col_expression" (AFn "try_parse" (APair (AAttr "col_expression")
-                                                     (APair (AAttr "col_expression.sql_dialect") (AAttr "datetime_format"))))]].
+                                                     (APair (AAttr "col_expression.sql_dialect") (AAttr "datetime_format"))))]
+       []].
 Definition atd_out : aexpr :=
   AFn "sql" (APair (AAttr "col_expression") (APair (AAttr "col_expression.sql_dialect") (AAttr "time_threshold_seconds"))).
 Example C17_example_absolute_time_difference_rejected :
